@@ -462,8 +462,6 @@ package regexp2
 //@     (code.FcPrefix != nil ==> ite(code.RightToLeft, p > 0 && syntax.Member(code.FcPrefix.PrefixSet, text[p-1]), p < len(text) && syntax.Member(code.FcPrefix.PrefixSet, text[p]))) &&
 //@     (code.FindOptimizations != nil && code.FindOptimizations.MinRequiredLength > 0 ==> ite(code.RightToLeft, p >= code.FindOptimizations.MinRequiredLength, len(text) - p >= code.FindOptimizations.MinRequiredLength)) &&
 //@     (code.FindOptimizations != nil ==> ModeFacts(code.FindOptimizations, text, p))
-// the runes of string s occur in text at i (ordinal / ASCII fold / Unicode simple lower-casing), stated over the decoded string
-//@ spec func StrOccurs(text []rune, i int, s string) bool = 0 <= i && i + RuneCount(s) <= len(text) && forall j int {RuneStart(s, j)} :: 0 <= j && j < RuneCount(s) ==> text[i+j] == RuneAtIdx(s, j)
 // what the FindMode-specific fact says about a position p with a successful attempt (for the modes whose finder contract is
 // connected to it deductively; the remaining modes are connected by the callensure assumptions of findFirstCharOptimized)
 //@ spec func ModeFacts(fo *syntax.FindOptimizations, text []rune, p int) bool =
@@ -471,8 +469,6 @@ package regexp2
 //@     ((fo.FindMode == syntax.LeadingSet_LeftToRight || fo.FindMode == syntax.FixedDistanceSets_LeftToRight) ==> FDSetsAt(text, fo.FixedDistanceSets, p)) &&
 //@     (fo.FindMode == syntax.LeadingStrings_LeftToRight ==> AnyPrefAt(text, p, fo.LeadingPrefixesRunes, false)) &&
 //@     (fo.FindMode == syntax.LeadingStrings_OrdinalIgnoreCase_LeftToRight ==> AnyPrefAt(text, p, fo.LeadingPrefixesRunes, true)) &&
-//@     (fo.FindMode == syntax.LeadingString_LeftToRight ==> StrOccurs(text, p, fo.LeadingPrefix)) &&
-//@     (fo.FindMode == syntax.FixedDistanceString_LeftToRight ==> StrOccurs(text, p + fo.FixedDistanceLiteral.Distance, fo.FixedDistanceLiteral.S)) &&
 //@     (fo.FindMode == syntax.FixedDistanceChar_LeftToRight ==> 0 <= p && p + fo.FixedDistanceLiteral.Distance < len(text) && text[p + fo.FixedDistanceLiteral.Distance] == fo.FixedDistanceLiteral.C)
 //@ spec func CodeFacts(code *syntax.Code) bool = (code.BmPrefix != nil ==> len(code.BmPrefix.pattern) > 0 && code.BmPrefix.rightToLeft == code.RightToLeft) &&
 //@     (code.FcPrefix != nil ==> syntax.SetOKv(code.FcPrefix.PrefixSet)) && (code.FindOptimizations != nil ==> OptFacts(code.FindOptimizations) && (code.RightToLeft ==> !HandledMode(code.FindOptimizations.FindMode)))
@@ -522,7 +518,8 @@ package regexp2
 //@   props C03 C10
 //@   requires r != nil && r.code != nil && 0 <= r.Runtextpos && r.Runtextpos <= len(r.Runtext) && r.Runtextend == len(r.Runtext)
 //@   requires FinderFacts(r.code, r.Runtext, r.Runtextstart)
-//@   callensure findLeadingStringLeftToRight: ignoreCase ==> NoSkip(r, old(r.Runtextpos), b)
+//@   callensure findLeadingStringLeftToRight: NoSkip(r, old(r.Runtextpos), b)
+//@   callensure findFixedDistanceStringLeftToRight: NoSkip(r, old(r.Runtextpos), b)
 //@   callensure findLiteralAfterLoopLeftToRight: NoSkip(r, old(r.Runtextpos), b)
 //@   callensure findRequiredLandmarkChainLeftToRight: NoSkip(r, old(r.Runtextpos), b)
 //@   modifies r.Runtextpos
@@ -1073,11 +1070,11 @@ package regexp2
 //@   requires RunnerText(r) && 0 <= distance
 //@   modifies r.Runtextpos
 //@   ensures[hit]   b ==> old(r.Runtextpos) <= r.Runtextpos && r.Runtextpos <= Latest(r) && r.Runtextpos + distance < len(r.Runtext) && r.Runtext[r.Runtextpos + distance] == ch
-//@   ensures[first] b ==> forall p int :: old(r.Runtextpos) <= p && p < r.Runtextpos && p <= Latest(r) ==> r.Runtext[p + distance] != ch
-//@   ensures[miss]  !b ==> r.Runtextpos == r.Runtextend && forall p int :: old(r.Runtextpos) <= p && p <= Latest(r) && p + distance < len(r.Runtext) ==> r.Runtext[p + distance] != ch
+//@   ensures[first] b ==> forall p int {mark(p)} :: old(r.Runtextpos) <= p && p < r.Runtextpos && p <= Latest(r) ==> r.Runtext[p + distance] != ch
+//@   ensures[miss]  !b ==> r.Runtextpos == r.Runtextend && forall p int {mark(p)} :: old(r.Runtextpos) <= p && p <= Latest(r) && p + distance < len(r.Runtext) ==> r.Runtext[p + distance] != ch
 //@   loop 0:
 //@     invariant RunnerText(r) && r.Runtextpos == old(r.Runtextpos) && r.Runtextpos + distance <= searchStart
-//@     invariant forall p int :: old(r.Runtextpos) <= p && p + distance < searchStart && p <= Latest(r) && p + distance < len(r.Runtext) ==> r.Runtext[p + distance] != ch
+//@     invariant forall p int {mark(p)} :: old(r.Runtextpos) <= p && p + distance < searchStart && p <= Latest(r) && p + distance < len(r.Runtext) ==> r.Runtext[p + distance] != ch
 //@     decreases len(r.Runtext) - searchStart
 
 //@ func findFixedDistanceStringLeftToRight(r *Runner, literal []rune, distance int) (b bool)
